@@ -24,7 +24,7 @@ from .common import mods
 
 ID = 'C16'
 TRUSTED = ['A1 float == real; A2 object arrays == float arrays',
-           'fd_weights by its contract (C15): for distinct nodes, sum_v w_v (x_v - x0)^d == n! [d == n] for every '
+           'fd_weights by its contract (C15; its obligations are re-discharged in this check as contract:fd_weights[..]): for distinct nodes, sum_v w_v (x_v - x0)^d == n! [d == n] for every '
            'd < number of nodes',
            'grid vectors of symbolic length modelled as uninterpreted functions Int -> Real with explicit in-bounds '
            'obligations (python/numpy negative-index and slice-clipping rules encoded in ndvc.vec.SymVec)',
@@ -32,7 +32,7 @@ TRUSTED = ['A1 float == real; A2 object arrays == float arrays',
 ASSUMPTIONS = ['grid points distinct (strict monotonicity of the property is stronger than needed)',
                'N >= 2*(n//2+m)+2 ("long enough for the stencil")']
 NOT_DECIDED = ['conditioning-scaled rounding']
-BOUNDED = ['grids-and-sample-types: 24 concrete grids (spacings 2**-30 .. 2**20, nearly equidistant, integer-typed, complex samples) executed with the real numpy -- not proved; the symbolic harness treats the grid as reals (A1) and cannot see dtype or tolerance effects']
+BOUNDED = ['grids-and-sample-types: 44 concrete cases (spacings 2**-30 .. 2**20, nearly equidistant, integer-typed, complex samples, strided / reversed / table-column views of the inputs) executed with the real numpy -- not proved; the symbolic harness treats the grid as reals (A1) and cannot see dtype or tolerance effects']
 QUANTIFIED = 'grid length N (integer), all grid values X(j), all polynomial coefficients a_d, the interior index i: ' \
              'universally quantified; n, m enumerated over the property\'s range'
 
@@ -51,6 +51,10 @@ def groups(tier):
     out = [('deriv[n=%d,m=%d]' % (n, m), ('deriv', n, m)) for n, m in grid(tier)]
     out.append(('guards', ('guards',)))
     out.append(('grids-and-sample-types', ('grids',)))
+    # the deriv groups take fd_weights by its contract (C15): the obligations of that contract are discharged here as well
+    from . import C15
+    for g, a in C15.groups(tier):
+        out.append(('contract:fd_weights[%s]' % g, ('dep', 'C15', 'run_group', (a,), {})))
     return out
 
 
@@ -273,6 +277,9 @@ def run_grids():
 
 
 def run_group(args):
+    if args[0] == 'dep':
+        import importlib
+        return getattr(importlib.import_module('props.' + args[1]), args[2])(*args[3], **args[4])
     if args[0] == 'grids':
         return run_grids()
     if args[0] == 'deriv':
@@ -282,6 +289,12 @@ def run_group(args):
 
 def replay_case(ob):
     import re
+    if ob['name'].startswith('contract:fd_weights['):
+        from . import C15
+        # (group names of C15 may themselves contain brackets: step[m=3])
+        nm = ob['name'][len('contract:fd_weights['):]
+        k = nm.rfind(']/')
+        return C15.replay_case(dict(ob, name=nm[:k] + '/' + nm[k + 2:]))
     if ob['name'].startswith('grids-and-sample-types/'):
         return dict(kind='C16.grids')
     mm = re.search(r'deriv\[n=(\d+),m=(\d+)\]', ob['name'])
